@@ -531,6 +531,44 @@ def run_pool_fold(case: dict) -> dict:
     return run_virtual(go)
 
 
+def action_events(act: dict) -> list[tuple[dict, Any]]:
+    """(event, battery id | None) of a pool-actor action: a single `ev` (+ `bat`) or a burst `evs` (data events carry
+    their battery in `bat`)."""
+    if act.get("evs"):
+        return [(e, e.get("bat")) for e in act["evs"]]
+    ev = act.get("ev")
+    return [] if ev is None else [(ev, act.get("bat"))]
+
+
+def pool_burst_oracle(case: dict, obs: list[dict]) -> list[tuple[str, Any, str | None]]:
+    """C16 at pool level, on the set-power results of one action (a single result or a burst published in one
+    event-loop step): a battery that was usable before and is named failed in ANY of the results, with no later result
+    naming it succeeded, must not be offered as working right afterwards (its blocking period of at least the minimum
+    duration has just started or is still running).  Batteries that also get a data message in the same step are not
+    judged (the order of the two deliveries is the scheduler's choice)."""
+    viol: list[tuple[str, Any, str | None]] = []
+    prev: dict = {"w": [], "u": []}
+    for a, ob in zip(case["actions"], obs):
+        evs = action_events(a)
+        touched = {b for e, b in evs if e["k"] in ("bat", "inv")}
+        for b in case["bats"]:
+            if b in touched or b not in set(prev["w"]) | set(prev["u"]):
+                continue
+            pending = False
+            for e, _ in evs:
+                if e["k"] != "sp":
+                    continue
+                if b in e["succ"]:
+                    pending = False
+                elif b in e["fail"]:
+                    pending = True
+            if pending and (b in ob["w"] or b in ob["get"] and set(ob["w"]) & set(a.get("req", case["bats"]))):
+                viol.append(("backoff(pool): a battery named failed in a set-power result is still offered as working",
+                             {"t": a["t"], "battery": b, "results": [e for e, _ in evs if e["k"] == "sp"], "observed": ob}, None))
+        prev = ob
+    return viol
+
+
 def run_pool_actor(case: dict) -> dict:
     """Real pool tracker with real battery trackers (ids in case["bats"]), fake API streams, scripted results."""
     _Repo.load()
@@ -559,10 +597,9 @@ def run_pool_actor(case: dict) -> dict:
             obs: list[Any] = []
             for act in case["actions"]:
                 await sleep_until(clock, act["t"])
-                ev = act.get("ev")
-                if ev is not None:
+                # a burst (`evs`) is published back-to-back in ONE event-loop step: the trackers run only afterwards
+                for ev, b in action_events(act):
                     if ev["k"] in ("bat", "inv"):
-                        b = act["bat"]
                         await tx[b if ev["k"] == "bat" else b - 1].send(make_msg(ev, act["t"], bat_id=b))
                     else:
                         await pool.update_status(set(ev["succ"]), set(ev["fail"]))
